@@ -40,10 +40,11 @@ const c03CoqMOD = "410661507958332025406385958229306956281279308448"
 const c03GasLimit = uint64(400_000)
 
 type c03Party struct {
-	Name   string
-	Addr   common.Address
-	Priv   *ethsecp256k1.PrivKey // nil for module accounts
-	Module bool
+	Name     string
+	Addr     common.Address
+	Priv     *ethsecp256k1.PrivKey // nil for module accounts
+	Module   bool
+	Contract bool // an account with code (C03: the vault)
 }
 
 type c03Pair struct {
@@ -58,7 +59,7 @@ type c03World struct {
 	A       *app.Canto
 	Ctx     sdk.Context
 	ABI     abi.ABI
-	Parties []c03Party // holders first, then the erc20 module account, then every other module account
+	Parties []c03Party // holders first, then the erc20 module account, then every other module account, the zero address; C03 only: then the vault contract
 	NHold   int
 	ModIdx  int // index of the erc20 module account
 	ZeroIdx int // index of the zero address (last party)
@@ -67,6 +68,10 @@ type c03World struct {
 	BankMsg banktypes.MsgServer
 	Notes   []string
 	Fails   []string // hypotheses of the theorems that do not hold on the real app
+	// C03 only (c03AddContracts): a contract account holding tokens, and an unregistered ERC-20
+	VaultIdx int // -1: none
+	Rogue    common.Address
+	HasRogue bool
 }
 
 func c03Key(i int) *ethsecp256k1.PrivKey {
@@ -90,7 +95,7 @@ func c03Must(err error) {
 // RegisterERC20, balances on both sides of every pair, and a well-funded fee collector.
 func c03NewWorld(id, nHold, nNative, nExt int, unit *big.Int) *c03World {
 	a, ctx := NewApp()
-	w := &c03World{ID: id, A: a, Ctx: ctx, ABI: contracts.ERC20MinterBurnerDecimalsContract.ABI, NHold: nHold}
+	w := &c03World{ID: id, A: a, Ctx: ctx, ABI: contracts.ERC20MinterBurnerDecimalsContract.ABI, NHold: nHold, VaultIdx: -1}
 	w.BankMsg = bankkeeper.NewMsgServerImpl(a.BankKeeper)
 	for i := 0; i < nHold; i++ {
 		priv := c03Key(i)
@@ -192,13 +197,16 @@ func c03NewWorld(id, nHold, nNative, nExt int, unit *big.Int) *c03World {
 // ---------- operations ----------
 
 type c03Op struct {
-	Kind string `json:"kind"` // convert_coin convert_erc20 transfer burn burn_coins bank_send toggle send_enabled params
+	Kind string `json:"kind"` // convert_coin convert_erc20 transfer burn burn_coins bank_send toggle send_enabled params receipt
 	Pair int    `json:"pair"`
 	From int    `json:"from"` // party index (sender / signer / caller)
 	To   int    `json:"to"`   // party index (receiver / destination / victim)
 	Amt  string `json:"amt"`
 	B1   bool   `json:"b1"` // params: EnableErc20; send_enabled: value
 	B2   bool   `json:"b2"` // params: EnableEVMHook
+	// receipt: one Ethereum transaction with several calls / logs (c03_receipt.go); From = signer (via vault)
+	Via  string   `json:"via,omitempty"` // keeper | vault
+	Legs []c03Leg `json:"legs,omitempty"`
 }
 
 func (w *c03World) acc(i int) sdk.AccAddress { return sdk.AccAddress(w.Parties[i].Addr.Bytes()) }
@@ -206,6 +214,10 @@ func (w *c03World) acc(i int) sdk.AccAddress { return sdk.AccAddress(w.Parties[i
 // sendEvm signs and executes a real Ethereum transaction at keeper level (DESIGN.md D.2).
 // ok = executed without VM error; a reverted transaction commits nothing but nonce and gas.
 func (w *c03World) sendEvm(ctx sdk.Context, from int, to common.Address, data []byte) (bool, error) {
+	return w.sendEvmGas(ctx, from, to, data, c03GasLimit)
+}
+
+func (w *c03World) sendEvmGas(ctx sdk.Context, from int, to common.Address, data []byte, gasLimit uint64) (bool, error) {
 	p := w.Parties[from]
 	if p.Priv == nil {
 		return false, fmt.Errorf("no key for %s", p.Name)
@@ -217,7 +229,7 @@ func (w *c03World) sendEvm(ctx sdk.Context, from int, to common.Address, data []
 	if baseFee == nil {
 		baseFee = big.NewInt(0)
 	}
-	tx := evm.NewTx(chainID, nonce, &to, nil, c03GasLimit, nil, baseFee, big.NewInt(1), data, &ethtypes.AccessList{})
+	tx := evm.NewTx(chainID, nonce, &to, nil, gasLimit, nil, baseFee, big.NewInt(1), data, &ethtypes.AccessList{})
 	tx.From = p.Addr.Hex()
 	if err := tx.Sign(ethtypes.LatestSignerForChainID(chainID), tests.NewSigner(p.Priv)); err != nil {
 		return false, err
@@ -237,7 +249,7 @@ func (w *c03World) apply(ctx sdk.Context, o c03Op) bool {
 		amt = big.NewInt(0)
 	}
 	var pr c03Pair
-	if o.Kind != "params" {
+	if o.Kind != "params" && o.Kind != "receipt" {
 		pr = w.Pairs[o.Pair]
 	}
 	reverted := false
@@ -270,6 +282,13 @@ func (w *c03World) apply(ctx sdk.Context, o c03Op) bool {
 				return err
 			}
 			// a reverted transaction still commits nonce and gas; its class is "rejected"
+			reverted = !ok
+			return nil
+		case "receipt":
+			ok, err := w.c03Receipt(ctx, o)
+			if err != nil {
+				return err
+			}
 			reverted = !ok
 			return nil
 		case "bank_send":
@@ -361,19 +380,19 @@ func c03Z(x *big.Int) string {
 	return Z(x)
 }
 
-func (w *c03World) pobsTerm(i int, po c03PairObs, selfburned *big.Int) string {
+func (w *c03World) pobsTerm(i int, po c03PairObs, selfburned, stuck *big.Int) string {
 	kind, owner := "ModuleOwned", "0%N"
 	if w.Pairs[i].External {
 		kind, owner = "External", w.pname(w.Pairs[i].Owner)
 	}
-	return App("mkPobs", kind, owner, B(po.Enabled), B(po.SendOK), c03Z(po.Supply), c03Z(po.Total), c03ZL(po.CBal), c03ZL(po.TBal), c03Z(selfburned))
+	return App("mkPobs", kind, owner, B(po.Enabled), B(po.SendOK), c03Z(po.Supply), c03Z(po.Total), c03ZL(po.CBal), c03ZL(po.TBal), c03Z(selfburned), c03Z(stuck))
 }
 
-// obsTerm: selfburned[i] is the harness-tracked ghost counter of pair i
-func (w *c03World) obsTerm(o c03Obs, selfburned []*big.Int) string {
+// obsTerm: selfburned[i], stuck[i] are the harness-tracked ghost counters of pair i
+func (w *c03World) obsTerm(o c03Obs, selfburned, stuck []*big.Int) string {
 	var ps []string
 	for i, po := range o.Pairs {
-		ps = append(ps, w.pobsTerm(i, po, selfburned[i]))
+		ps = append(ps, w.pobsTerm(i, po, selfburned[i], stuck[i]))
 	}
 	return App("mkObs", B(o.Mod), B(o.Hook), L(ps))
 }
@@ -392,16 +411,16 @@ func c03SameInts(a, b []*big.Int) bool {
 
 // dobsTerm: observation relative to the previous one; a pair whose every observed value
 // (and ghost counter) is identical to the previous observation is written as None
-func (w *c03World) dobsTerm(prev c03Obs, prevSB []*big.Int, o c03Obs, selfburned []*big.Int) string {
+func (w *c03World) dobsTerm(prev c03Obs, prevSB, prevStuck []*big.Int, o c03Obs, selfburned, stuck []*big.Int) string {
 	var ps []string
 	for i, po := range o.Pairs {
 		pp := prev.Pairs[i]
 		same := pp.Enabled == po.Enabled && pp.SendOK == po.SendOK && pp.Supply.Cmp(po.Supply) == 0 && pp.Total.Cmp(po.Total) == 0 &&
-			c03SameInts(pp.CBal, po.CBal) && c03SameInts(pp.TBal, po.TBal) && prevSB[i].Cmp(selfburned[i]) == 0
+			c03SameInts(pp.CBal, po.CBal) && c03SameInts(pp.TBal, po.TBal) && prevSB[i].Cmp(selfburned[i]) == 0 && prevStuck[i].Cmp(stuck[i]) == 0
 		if same {
 			ps = append(ps, "None")
 		} else {
-			ps = append(ps, "(Some "+w.pobsTerm(i, po, selfburned[i])+")")
+			ps = append(ps, "(Some "+w.pobsTerm(i, po, selfburned[i], stuck[i])+")")
 		}
 	}
 	return App("mkDobs", B(o.Mod), B(o.Hook), L(ps))
@@ -442,6 +461,12 @@ func (w *c03World) opTerm(o c03Op) string {
 		po = App("SetSendEnabled", B(o.B1))
 	case "params":
 		return App("SetParams", B(o.B1), B(o.B2))
+	case "receipt":
+		var ls []string
+		for _, l := range o.Legs {
+			ls = append(ls, w.c03LegTerm(l))
+		}
+		return App("EvmTx", L(ls))
 	default:
 		panic("unknown op kind " + o.Kind)
 	}
